@@ -47,7 +47,7 @@ var c15Base = []string{
 }
 
 func c15Main(r *run.Runner) {
-	r.Rule = "every byte string over a 17-symbol alphabet up to the stated length, and every corpus program with ';', ';;' or '; ' inserted at every byte offset, " +
+	r.Rule = "every byte string over a 17-symbol alphabet up to the stated length, and every corpus program with ';', ';;' or '; ' inserted at every byte offset (also padded to 512 / 1024 / 4096 bytes), and the wide families as multi-statement sources, " +
 		"is split by parser.SplitStatements and checked against parser.Scan, the reference tokenizer and parser.Parse; " +
 		"non-trivial = the source contains at least one semicolon token or at least one other token; distinct by construction"
 	r.Assume = []string{"reference tokenizer reftok for the independent semicolon count"}
